@@ -291,11 +291,15 @@ type snap struct {
 	shares   map[[2]int]sdkmath.LegacyDec // (delegator, validator)
 	valTok   []sdkmath.Int
 	valShare []sdkmath.LegacyDec
+	bals     []sdkmath.Int // liquid balance per account
 }
 
 func (w *world) snapshot() snap {
 	ctx := w.ctx()
 	sn := snap{digest: map[string]string{}, shares: map[[2]int]sdkmath.LegacyDec{}}
+	for _, a := range w.accs {
+		sn.bals = append(sn.bals, w.s.App.BankKeeper.GetBalance(ctx, a, fxtypes.DefaultDenom).Amount)
+	}
 	for _, name := range []string{stakingtypes.StoreKey, distrtypes.StoreKey, banktypes.StoreKey} {
 		d, _ := hx.DumpStore(ctx, w.s.App.GetKey(name))
 		sn.digest[name] = d
@@ -463,6 +467,7 @@ func (w *world) apply(line string) string {
 		if kind == "ok" && f[0] == "delegate" {
 			w.spent[a[0]] = w.spent[a[0]].Add(sdkmath.NewIntFromBigInt(amt))
 		}
+		w.checkFrame(f[0], before, kind, a[0], [][2]int{{a[0], a[1]}}, amt, a[1])
 	case "redelegate":
 		a := ints(3)
 		data, err := precompile.NewRedelegateV2Method(nil).PackInput(fxstakingtypes.RedelegateV2Args{
@@ -471,6 +476,7 @@ func (w *world) apply(line string) string {
 			panic(err)
 		}
 		kind = kindOf(w.ethTx(a[0], data), false)
+		w.checkFrame(f[0], before, kind, a[0], [][2]int{{a[0], a[1]}, {a[0], a[2]}}, nil, -1)
 	case "withdraw":
 		a := ints(2)
 		data, err := precompile.NewWithdrawMethod(nil).PackInput(fxstakingtypes.WithdrawArgs{Validator: w.vals[a[1]].String()})
@@ -478,6 +484,7 @@ func (w *world) apply(line string) string {
 			panic(err)
 		}
 		kind = kindOf(w.ethTx(a[0], data), false)
+		w.checkFrame(f[0], before, kind, a[0], nil, nil, -1)
 	case "approve":
 		a := ints(3)
 		data, err := precompile.NewApproveSharesMethod(nil).PackInput(fxstakingtypes.ApproveSharesArgs{
@@ -486,6 +493,12 @@ func (w *world) apply(line string) string {
 			panic(err)
 		}
 		kind = kindOf(w.ethTx(a[0], data), false)
+		w.checkFrame(f[0], before, kind, a[0], nil, nil, -1)
+		if kind == "ok" {
+			if got := app.StakingKeeper.GetAllowance(w.ctx(), w.vals[a[2]], w.accs[a[0]], w.accs[a[1]]); got.Cmp(bigOf(f[4])) != 0 {
+				w.violate(fmt.Sprintf("approveShares(%s) by account %d for spender %d left allowance %s", f[4], a[0], a[1], got))
+			}
+		}
 	case "transfer":
 		a := ints(3)
 		x := bigOf(f[4])
@@ -550,6 +563,44 @@ func (w *world) apply(line string) string {
 		w.invariants(f[0])
 	}
 	return kind + " | " + w.dump() + ret
+}
+
+// checkFrame: a successful delegate / undelegate / redelegate / withdraw / approve sent by `caller` acts for the caller
+// only: no delegation other than the allowed (delegator, validator) pairs changes, nobody else's liquid balance
+// changes, and a delegation adds exactly the delegated amount to the validator's tokens.
+func (w *world) checkFrame(op string, before snap, kind string, caller int, allowed [][2]int, amt *big.Int, v int) {
+	if kind != "ok" || w.dead {
+		return
+	}
+	after := w.snapshot()
+	ok := func(d, vi int) bool {
+		for _, p := range allowed {
+			if p[0] == d && p[1] == vi {
+				return true
+			}
+		}
+		return false
+	}
+	for vi := range w.vals {
+		for d := range w.accs {
+			if !ok(d, vi) && !before.sh(d, vi).Equal(after.sh(d, vi)) {
+				w.violate(fmt.Sprintf("%s sent by account %d changed the delegation of account %d at validator %d: %s -> %s (a staking operation through the precompile acts for its caller only)",
+					op, caller, d, vi, before.sh(d, vi), after.sh(d, vi)))
+				return
+			}
+		}
+	}
+	for d := range w.accs {
+		if d != caller && !before.bals[d].Equal(after.bals[d]) {
+			w.violate(fmt.Sprintf("%s sent by account %d changed the balance of account %d: %s -> %s", op, caller, d, before.bals[d], after.bals[d]))
+			return
+		}
+	}
+	if op == "delegate" && amt != nil && v >= 0 {
+		if !after.valTok[v].Sub(before.valTok[v]).Equal(sdkmath.NewIntFromBigInt(amt)) {
+			w.violate(fmt.Sprintf("delegate of %s changed validator %d tokens %s -> %s", amt, v, before.valTok[v], after.valTok[v]))
+		}
+	}
 }
 
 // retOf: the values a successful transferShares / transferFromShares call returns (token worth of the moved shares,
@@ -1058,7 +1109,9 @@ func (g *gen) next() string {
 		if r.Intn(3) == 0 && power > 1 {
 			power = 1 + r.Int63n(power)
 		}
-		factors := []string{"10000000000000000", "50000000000000000", "333333333333333333", "500000000000000000", "1", "123456789012345678"}
+		// smallest factor 10^-6: a fraction at the 10^-18 precision limit makes the SDK's own stake sanity check fail
+		// without any share transfer (fixes/C11-sdk-stake-sanity.md, Props.C11.stake_sanity_reachable)
+		factors := []string{"10000000000000000", "50000000000000000", "333333333333333333", "500000000000000000", "1000000000000", "123456789012345678"}
 		return fmt.Sprintf("slash %d %d %s", v, power, hx.Pick(r, factors))
 	default:
 		// a holder-less account tries to move shares / unknown holder
